@@ -164,6 +164,10 @@ type Raft struct {
 	// Maintained by the leader.
 	followers map[string]*follower
 
+	// The vote counter of the most recent round of prevote or vote requests.
+	// Responses to the requests of an earlier round are ignored.
+	votes *int
+
 	// Manages both read-only and replicated operations.
 	operationManager *operationManager
 
@@ -1300,6 +1304,7 @@ func (r *Raft) sendRequestVoteToPeers() {
 
 	// Send RequestVote RPCs to all voting members of the cluster.
 	votesRecieved := 1
+	r.votes = &votesRecieved
 	isPrevote := r.state == PreCandidate
 	for id, address := range r.configuration.Members {
 		if id != r.id && r.isVoter(id) {
@@ -1346,6 +1351,12 @@ func (r *Raft) sendRequestVote(id string, address string, votes *int, prevote bo
 	// A prevote asks about the term after the current one, so its responses are of no use once
 	// the term has changed.
 	if r.currentTerm > request.Term || (prevote && r.currentTerm+1 != request.Term) {
+		return
+	}
+
+	// A response to a request of an earlier round must not decide the current round:
+	// the node may have been a follower of the leader in between.
+	if votes != r.votes {
 		return
 	}
 
